@@ -538,6 +538,7 @@ def oracle(line, ans, rng=None, want=None):
     tops = top_samples(cx, w, r0, 10)
     regs = [[t.copy() for t in tops] for _ in range(cx.nregs)]
     ai = 0
+    last_ans = {}        # register -> last printed state
 
     def trim(l):
         seen = {}
@@ -580,6 +581,16 @@ def oracle(line, ans, rng=None, want=None):
             s1, t1 = k.nexti(), k.nexti()
             keys = set(t.key() for t in regs[t1])
             S = [t.copy() for t in regs[s1] if t.key() in keys]
+            # The domain counts the references of each region, which is history, not store: the same
+            # store can be reached with different counts (select_ref / gep into another region create
+            # no address).  A meet of two values whose counters differ is only meaningful between
+            # states of the same program point, so no demand is made in that case.
+            def counts(txt):
+                g = txt.split(" G:", 1)
+                return [f.split(";")[1].split(",")[0] if ";" in f else f for f in g[1].split("|")] if len(g) == 2 else None
+            c1, c2 = counts(last_ans.get(s1, "")), counts(last_ans.get(t1, ""))
+            if c1 is None or c2 is None or c1 != c2:
+                S = []
         elif op == "rename":
             return None
         else:
@@ -587,6 +598,7 @@ def oracle(line, ans, rng=None, want=None):
             for s in regs[r]:
                 S.extend(step(cx, w, r0, s, op, Tok(o[2:])))
         regs[r] = trim(S)
+        last_ans[r] = a
         st = parse_state(a, cx)
         wit = check_state(cx, w, st, regs[r], where, line)
         if wit:
